@@ -2,6 +2,7 @@ package rules
 
 import (
 	"fmt"
+	"go/token"
 	"go/types"
 	"sort"
 	"strings"
@@ -21,6 +22,7 @@ func init() {
 			"cuts min(remaining, output chunk size); C01.csz - a chunk size announced by this endpoint is applied to its own output settings after the announcing message was flushed, as the peer's announcement is applied to the input settings; " +
 			"C01.flush - every successful WriteMessage passed the transport flush; C01.fullread - the transport is read only through all-or-error primitives (any segmentation); C01.partial - a partially received message " +
 			"(nil, nil from the payload reader) is never dereferenced; C01.c0c3 - the first chunk of a message carries the type-0 header, the following ones type-3. " +
+			"Also: the announced length is stored from len(Payload) on every path before the first header is generated (a reused Message carries nothing over); both sides apply the announced 32-bit chunk size unchanged (no mask, no narrowing or sign-changing conversion); a transport handed in for one call is not buffered in the receiver (the handshake reads exactly its bytes). " +
 			"Not decided: byte equality of payloads for all lengths/chunk sizes/sequences (loop arithmetic over runtime lengths; the clauses above are its per-iteration ingredients); handshake content.",
 		Assume: []string{"bufio.Reader/Writer, io.ReadFull, io.Copy, binary.Read models", "layout tables transcribed from RTMP 1.0 section 5.3.1"},
 		Run:    runC01,
@@ -204,6 +206,7 @@ func runC01(c *Ctx) {
 			"WriteMessage can return success without flushing the buffered writer (or buffers more after the flush): the peer would wait for a message that was 'written'", nil)
 	}
 
+	checkLengthFromPayload(c)
 	// ---- C01.fullread
 	checkFullRead(c, "C01.fullread", "rtmp")
 
@@ -291,6 +294,98 @@ func isErrorReturn(r *ssa.Return, ei int) bool {
 	return false
 }
 
+// checkLengthFromPayload (C01.hdr): the length WriteMessage announces in the message header is the length of the
+// payload it is about to send - assigned from len(Payload) on every path before the first header is generated, whatever
+// the Message object carried before (a Message is an exported struct: applications reuse and forward them).
+func checkLengthFromPayload(c *Ctx) {
+	P, R := c.P, c.R
+	wm := P.Func("rtmp", "(*Protocol).WriteMessage")
+	if !R.Anchor(wm != nil, "C01.hdr", "rtmp.(*Protocol).WriteMessage") {
+		return
+	}
+	isSet := func(in ssa.Instruction) bool {
+		st, ok := in.(*ssa.Store)
+		if !ok || !strings.HasSuffix(core.Path(st.Addr), ".payloadLength") {
+			return false
+		}
+		call, ok := core.StripConv(stripAnyConv(st.Val)).(*ssa.Call)
+		if !ok {
+			return false
+		}
+		b, isB := call.Call.Value.(*ssa.Builtin)
+		return isB && b.Name() == "len" && strings.HasSuffix(core.Path(call.Call.Args[0]), ".Payload")
+	}
+	out := map[*ssa.BasicBlock]bool{}
+	for _, b := range wm.Blocks {
+		out[b] = true
+	}
+	for changed := true; changed; {
+		changed = false
+		for _, b := range wm.Blocks {
+			in := len(b.Preds) > 0
+			for _, pr := range b.Preds {
+				if !out[pr] {
+					in = false
+				}
+			}
+			o := in
+			for _, x := range b.Instrs {
+				if isSet(x) {
+					o = true
+				}
+			}
+			if o != out[b] {
+				out[b], changed = o, true
+			}
+		}
+	}
+	ok, n := true, 0
+	where := P.Pos(wm.Pos())
+	core.EachInstr(wm, func(in ssa.Instruction) {
+		call, isCall := in.(*ssa.Call)
+		if !isCall || call.Call.StaticCallee() == nil || !strings.Contains(core.FuncName(call.Call.StaticCallee()), "generateC0Header") {
+			return
+		}
+		n++
+		// the store precedes the call in its own block, or every path into the block passed one
+		pre := false
+		for _, x := range call.Block().Instrs {
+			if x == in {
+				break
+			}
+			if isSet(x) {
+				pre = true
+			}
+		}
+		inOK := len(call.Block().Preds) > 0
+		for _, pr := range call.Block().Preds {
+			if !out[pr] {
+				inOK = false
+			}
+		}
+		if !pre && !inOK {
+			ok, where = false, P.InstrPos(call)
+		}
+	})
+	R.Check(ok && n > 0, "C01.hdr", "rtmp|(*Protocol).WriteMessage|length-is-len-of-payload", where,
+		"the announced message length is assigned from len(Payload) on every path before the header is generated",
+		"the message header can be generated with a payload length that was not just taken from len(Payload) (kept from an earlier use of the Message object): a Message written a second time with a payload of another size is chunked under the old length and the peer loses framing", nil)
+}
+
+func stripAnyConv(v ssa.Value) ssa.Value {
+	for {
+		switch x := v.(type) {
+		case *ssa.Convert:
+			v = x.X
+			continue
+		case *ssa.ChangeType:
+			v = x.X
+			continue
+		}
+		return v
+	}
+}
+
 // checkChunkSizeApplied implements C01.csz.
 func checkChunkSizeApplied(c *Ctx) { checkChunkSizeAppliedAs(c, "C01.csz") }
 
@@ -323,6 +418,31 @@ func checkChunkSizeAppliedAs(c *Ctx, rule string) {
 	R.Check(len(rd) > 0, rule, "rtmp|reader|applies-peer-chunk-size", P.Pos(rm.Pos()),
 		"the reader applies the peer's Set Chunk Size to its input settings",
 		"the reader never applies a received Set Chunk Size to its input settings: every following message larger than the old chunk size is mis-framed", nil)
+	// both sides apply the announced 32-bit value as it is: a mask, a narrowing or a sign-changing conversion on one side
+	// only makes the two endpoints chunk with different sizes for a value the other side accepts
+	checkAnnounced := func(side string, stores []ssa.Instruction) {
+		res := core.NewResolver(false)
+		for i, in := range stores {
+			st := in.(*ssa.Store)
+			v := core.StripConv(res.V(st.Val))
+			why := ""
+			switch x := v.(type) {
+			case *ssa.BinOp:
+				switch x.Op {
+				case token.OR, token.SHL, token.ADD, token.XOR:
+					// assembling the value from its bytes by hand
+				default:
+					why = "computed from it (" + x.Op.String() + ")"
+				}
+			case *ssa.Convert:
+				why = "converted from " + x.X.Type().String() + " to " + x.Type().String()
+			}
+			R.Check(why == "", rule, fmt.Sprintf("rtmp|%s|applies-the-announced-size-unchanged#%d", side, i+1), P.InstrPos(in),
+				"the chunk size applied is the announced 32-bit value itself",
+				"the "+side+" does not apply the announced chunk size as it is but a value "+why+": for a size with the top bit set the two endpoints disagree (or the size turns negative), and every later message longer than the smaller size is mis-framed", nil)
+		}
+	}
+	checkAnnounced("reader", rd)
 	// every exported way to put a message on the wire: a Set Chunk Size message is a message of type 1 whoever built it
 	// (WritePacket from a packet, WriteMessage from raw bytes, e.g. when relaying)
 	for _, entry := range []string{"(*Protocol).WritePacket", "(*Protocol).WriteMessage"} {
@@ -335,6 +455,9 @@ func checkChunkSizeAppliedAs(c *Ctx, rule string) {
 			continue
 		}
 		wr := find(wfn, "Protocol.output.opt.chunkSize")
+		if entry == "(*Protocol).WriteMessage" {
+			checkAnnounced("writer", wr)
+		}
 		if len(wr) == 0 {
 			R.Fail(rule, key, P.Pos(wfn.Pos()),
 				"a Set Chunk Size message sent through "+entry+" is never applied to this endpoint's own output settings: the peer switches to the announced size while this writer keeps chunking with the old one, so every later message longer than the smaller of the two is mis-framed", nil)
